@@ -197,6 +197,41 @@ fn replay_key(case: &Value, nkeys: usize) -> Vec<String> {
     problems
 }
 
+/// encodings of the ed25519 points of small order (orders 4, 1, 8, 8, 2 and two non-canonical forms)
+const ED_SMALL_ORDER: [&str; 7] = [
+    "0000000000000000000000000000000000000000000000000000000000000000",
+    "0100000000000000000000000000000000000000000000000000000000000000",
+    "26e8958fc2b227b045c3f489f2ef98f0d5dfac05d3c63339b13802886d53fc05",
+    "c7176a703d4dd84fba3c0b760d10670f2a2053fa2c39ccc64ec7fd7792ac037a",
+    "ecffffffffffffffffffffffffffffffffffffffffffffffffffffffffffff7f",
+    "0000000000000000000000000000000000000000000000000000000000000080",
+    "0100000000000000000000000000000000000000000000000000000000000080",
+];
+
+/// public keys no private key generates; a key the library refuses to decode is fine (nothing verifies under it)
+fn weak_keys(alg: &str) -> Vec<PublicKey> {
+    let encs: Vec<Vec<u8>> = if alg == "ed" {
+        ED_SMALL_ORDER.iter().map(|h| hex::decode(h).unwrap()).collect()
+    } else {
+        vec![vec![0u8], vec![0u8; 33], { let mut v = vec![0u8; 33]; v[0] = 2; v }]
+    };
+    encs.iter().filter_map(|b| PublicKey::from_bytes(b, alg_of(alg)).ok()).collect()
+}
+
+/// signatures made without a private key
+fn crafted_sigs(alg: &str) -> Vec<Vec<u8>> {
+    if alg == "ed" {
+        ED_SMALL_ORDER.iter().map(|h| { let mut v = hex::decode(h).unwrap(); v.extend_from_slice(&[0u8; 32]); v }).collect()
+    } else {
+        vec![
+            vec![0x30, 0x06, 0x02, 0x01, 0x00, 0x02, 0x01, 0x00],
+            vec![0x30, 0x06, 0x02, 0x01, 0x01, 0x02, 0x01, 0x01],
+            vec![0x30, 0x06, 0x02, 0x01, 0x00, 0x02, 0x01, 0x01],
+            vec![0u8; 64],
+        ]
+    }
+}
+
 fn replay_sig(case: &Value, nkeys: usize) -> Vec<String> {
     use biscuit_auth::datalog::SymbolTable;
     use biscuit_auth::format::SerializedBiscuit;
@@ -210,16 +245,17 @@ fn replay_sig(case: &Value, nkeys: usize) -> Vec<String> {
         // the signature under test is the authority block signature of a one-block token:
         // signer = root key, message = the block's signed payload, verified by the library itself
         let signer = keys::keypair(&format!("sig{i}"), alg);
-        let verifier = match s["key"].as_str().unwrap() {
-            "same" => keys::keypair(&format!("sig{i}"), alg),
-            "other" => keys::keypair(&format!("sig-other{i}"), alg),
-            _ => keys::keypair(&format!("sig{i}"), other(alg)),
+        let verifiers: Vec<PublicKey> = match s["key"].as_str().unwrap() {
+            "same" => vec![keys::keypair(&format!("sig{i}"), alg).public()],
+            "other" => vec![keys::keypair(&format!("sig-other{i}"), alg).public()],
+            "weak" => weak_keys(alg),
+            _ => vec![keys::keypair(&format!("sig{i}"), other(alg)).public()],
         };
         let r = util::catch(|| -> Result<(bool, bool), String> {
             let t = e(Biscuit::builder().code(format!("f({i});")).and_then(|b| b.build_with_key_pair(&signer, SymbolTable::new(), &keys::keypair("nk", "ed"))))?;
             let mut wire = e(schema::Biscuit::decode(&e(t.to_vec())?[..]))?;
             let sig = wire.authority.signature.clone();
-            wire.authority.signature = match s["sig"].as_str().unwrap() {
+            let sigs: Vec<Vec<u8>> = if s["sig"] == "crafted" { crafted_sigs(alg) } else { vec![match s["sig"].as_str().unwrap() {
                 "intact" => sig.clone(),
                 "truncate" => sig[..sig.len() - 1].to_vec(),
                 "extend" => { let mut v = sig.clone(); v.push(0); v }
@@ -227,15 +263,22 @@ fn replay_sig(case: &Value, nkeys: usize) -> Vec<String> {
                 "flip_first" => { let mut v = sig.clone(); v[if alg == "ed" { 0 } else { 5 }] ^= 1; v }
                 "flip_last" => { let mut v = sig.clone(); let n = v.len() - 1; v[n] ^= 1; v }
                 _ => crate::layout::reencode(alg, &sig),
-            };
+            }] };
             match s["msg"].as_str().unwrap() {
                 "same" => {}
                 "altered" => { let n = wire.authority.block.len() - 1; wire.authority.block[n] ^= 1; }
                 _ => wire.authority.block.clear(),
             }
-            let bytes = wire.encode_to_vec();
-            let lib = SerializedBiscuit::from_slice(&bytes, verifier.public()).is_ok();
-            let lib2 = Biscuit::from(&bytes, verifier.public()).is_ok();
+            // every (signature, verifier key) combination of the case: "verifies" if any of them does
+            let (mut lib, mut lib2) = (false, false);
+            for sg in sigs.iter() {
+                wire.authority.signature = sg.clone();
+                let bytes = wire.encode_to_vec();
+                for vk in verifiers.iter() {
+                    lib |= SerializedBiscuit::from_slice(&bytes, *vk).is_ok();
+                    lib2 |= Biscuit::from(&bytes, *vk).is_ok();
+                }
+            }
             Ok((lib, lib2))
         });
         match r {
